@@ -133,7 +133,7 @@ def check_c16(tier, seed):
     first tier that violates the bound, so that a super-linear collector is never run on a big graph"""
     rng = random.Random(seed)
     sizes = [1, 2, 3, 4, 6, 8, 16, 32, 64] if tier == "quick" else [1, 2, 3, 4, 6, 8, 16, 32, 64, 128, 256, 512, 1024]
-    kinds = ["ladder", "ladder_cyc", "fan", "fan_in", "chain", "ring", "shared"]
+    kinds = ["ladder", "ladder_cyc", "fan", "fan_in", "chain", "ring", "hub", "shared"]
     choices = ["all", "top", "only_top", "keep_bottom", "keep_top"]
     for k in sizes:
         scripts, meta = [], []
